@@ -8,20 +8,28 @@ namespace Bridge.C06
 otherwise exactly the hand's cards of the suit led -/
 theorem available_spec (hand : List Card) (first : Option Card) :
     availableCards hand first = followSuit hand first := by
-  sorry
+  exact availableCards_eq_followSuit hand first
 
 theorem available_subset (hand : List Card) (first : Option Card) :
     ∀ c ∈ availableCards hand first, c ∈ hand := by
-  sorry
+  exact availableCards_subset hand first
 
 theorem available_nonempty (hand : List Card) (first : Option Card) (h : hand ≠ []) :
     availableCards hand first ≠ [] := by
-  sorry
+  exact availableCards_ne_nil hand first h
 
 /-- when following, every offered card is of the suit led if the hand has any -/
 theorem available_follows (hand : List Card) (f : Card) (h : ∃ c ∈ hand, c.suit = f.suit) :
     ∀ c, c ∈ availableCards hand (some f) ↔ (c ∈ hand ∧ c.suit = f.suit) := by
-  sorry
+  intro c
+  obtain ⟨d, hd, hds⟩ := h
+  have hne : (hand.filter fun c => decide (c.suit = f.suit)) ≠ [] := by
+    intro e
+    have := List.filter_eq_nil_iff.1 e d hd
+    simp [hds] at this
+  have hl : (hand.filter fun c => decide (c.suit = f.suit)).length ≠ 0 := by
+    intro e; exact hne (List.eq_nil_of_length_eq_zero e)
+  simp only [availableCards, hl, if_false, List.mem_filter, decide_eq_true_eq]
 
 /-- the state-dependent variant uses the first card of the trick in progress; there is none exactly when
 the seat on turn is leading -/
@@ -30,7 +38,18 @@ theorem current_available_uses_first_card (c : Contract) (s0 : PState) (h0 : PSt
     let s := runPlay s0 plays
     s.currentAvailable hand = followSuit hand s.trick.head? ∧
     (s.trick.head? = none ↔ s.active = s.leader ∧ plays.length % 4 = 0) := by
-  sorry
+  intro s
+  have hp := pinv_of_init h0 plays
+  have ha : s.active = s.leader.rot s.trick.length := hp.act
+  have hl : s.trick.length = plays.length % 4 := hp.len
+  refine ⟨availableCards_eq_followSuit hand _, ?_⟩
+  rw [List.head?_eq_none_iff]
+  constructor
+  · intro e
+    rw [e] at ha hl
+    exact ⟨ha, by simpa using hl.symm⟩
+  · rintro ⟨_, e⟩
+    apply List.eq_nil_of_length_eq_zero; omega
 
 /-- the bundled example player chooses `random.choice(list(available))`: for every choice function that
 returns an element of its non-empty argument, the card played is playable and in the hand -/
@@ -38,7 +57,9 @@ theorem random_play_in_available (choice : List Card → Card)
     (hc : ∀ l, l ≠ [] → choice l ∈ l) (s : PState) (hand : List Card) (hne : hand ≠ []) :
     choice (s.currentAvailable hand) ∈ s.currentAvailable hand ∧
     choice (s.currentAvailable hand) ∈ hand := by
-  sorry
+  have hne' : s.currentAvailable hand ≠ [] := availableCards_ne_nil hand _ hne
+  have hm := hc _ hne'
+  exact ⟨hm, availableCards_subset hand _ _ hm⟩
 
 example : availableCards [⟨3, .C⟩, ⟨2, .D⟩, ⟨9, .D⟩] (some ⟨14, .D⟩) = [⟨2, .D⟩, ⟨9, .D⟩] := by decide
 example : availableCards [⟨3, .C⟩, ⟨2, .D⟩] (some ⟨14, .S⟩) = [⟨3, .C⟩, ⟨2, .D⟩] := by decide
